@@ -889,12 +889,69 @@ def batches(ctx, exe):
     for (api, variant, style, seed), (ops, out, rc, err) in zip(jobs, vlib.par_map(sess, jobs)):
         hists.append(("real:%s/%d" % (api, variant), ops))
         if rc != 0 or None in out or len(out) != len(ops):
-            ctx.violation("harness-abort", {"kind": "implementation aborted (sanitizer/assert/crash) in an interactive session", "family": hists[-1][0],
-                                            "ops": ops, "output_so_far": out, "stderr": err}, True)
+            if len(ctx.violations) < 4:
+                ctx.violation("harness-abort", {"kind": "implementation aborted (sanitizer/assert/crash) in an interactive session; the last op is the one that aborted",
+                                                "family": hists[-1][0], "ops": ops, "output_so_far": out, "stderr": err}, True)
             impl[len(hists) - 1] = None
         else:
             impl[len(hists) - 1] = out
     yield "interactive", hists, impl
+
+
+def run_group(exe, hists, group):
+    lines = []
+    for i in group:
+        lines += hists[i][1]
+    rc, out, err = vlib.run_lines([exe], lines)
+    ok = rc == 0 and len(out) == len(lines)
+    outs = {}
+    if ok:
+        pos = 0
+        for i in group:
+            outs[i] = out[pos:pos + len(hists[i][1])]
+            pos += len(hists[i][1])
+    return ok, outs
+
+
+def locate_aborts(ctx, exe, hists, idx, impl, limit=2):
+    """A chunk of histories made the harness die. Histories are independent (each starts with `new`), so bisect on the
+    shortest failing prefix; report up to `limit` aborting histories per chunk, keep the outputs of the others."""
+    pending = list(idx)
+    for i in pending:
+        impl[i] = None
+    found = 0
+    while pending:
+        ok, outs = run_group(exe, hists, pending)
+        if ok:
+            impl.update(outs)
+            return
+        if found >= limit or len([v for v in ctx.violations]) >= 4:
+            return            # the remaining histories of this chunk are left unexplored
+        lo, hi = 0, len(pending)          # prefix of length lo passes, prefix of length hi fails
+        good = {}
+        while hi - lo > 1:
+            mid = (lo + hi) // 2
+            ok, outs = run_group(exe, hists, pending[:mid])
+            if ok:
+                lo, good = mid, outs
+            else:
+                hi = mid
+        impl.update(good)
+        f = pending[hi - 1]
+        ops = hists[f][1]
+
+        def still(o, res):
+            return len(o) - 1 if None in res else None
+        small = shrink(exe, ops, still)
+        se = Session(exe)
+        for o in small:
+            if se.send(o) is None:
+                break
+        rc1, e1 = se.close()
+        ctx.violation("harness-abort", {"kind": "implementation aborted (sanitizer/assert/crash) on this history; the last op sent is the one that aborted",
+                                        "family": hists[f][0], "ops": se.ops, "output_so_far": se.out, "stderr": e1, "original_ops": ops[:400]}, True)
+        found += 1
+        pending = pending[hi:]
 
 
 def process(ctx, exe, mexe, hists, impl, tot):
@@ -902,17 +959,9 @@ def process(ctx, exe, mexe, hists, impl, tot):
     if impl is None:
         chunks = split_balanced(hists, vlib.NCPU)
         impl, errors = run_chunks([exe], hists, chunks, lambda i: hists[i][1])
-        # sanitizer aborts / crashes: re-run the histories of a failed chunk one by one
+        # sanitizer aborts / crashes: locate the aborting histories of a failed chunk by bisection (a few per run)
         for idx, rc, err in errors:
-            for i in idx:
-                rc1, o1, e1 = vlib.run_lines([exe], hists[i][1])
-                if rc1 != 0 or len(o1) != len(hists[i][1]):
-                    if len(ctx.violations) < 4:
-                        ctx.violation("harness-abort", {"kind": "implementation aborted (sanitizer/assert/crash) on this history", "family": hists[i][0],
-                                                        "ops": hists[i][1], "output_so_far": o1, "stderr": e1}, True)
-                    impl[i] = None
-                else:
-                    impl[i] = o1
+            locate_aborts(ctx, exe, hists, idx, impl)
     tot["t_impl"] += time.time() - t0
     # model
     m_out = {}
